@@ -1,7 +1,7 @@
 (* AutoProofs.v — C18: the emission model of Auto.v refines its specification (same slot everywhere), for every
    well-formed model: any number of parameters, any order of first use, any registration history after the
    declaration-order pre-registration. *)
-From Coq Require Import ZArith List Bool String QArith Qcanon Lia Sorted.
+From Coq Require Import ZArith List Bool String QArith Qcanon Lia Sorted Permutation.
 From PV Require Import PyLib Auto AutoImpl AutoEquiv.
 From PVG Require Import Gen_auto_param_indices.
 Import ListNotations.
@@ -207,6 +207,20 @@ Section Pipeline.
         now apply (Hext x). }
     rewrite Hf. rewrite filter_none; [apply app_nil_r|].
     intros x Hx. apply negb_false_iff. now apply mem_In.
+  Qed.
+
+  (* generate_func_head: the reordering is a permutation of the (deduplicated) arguments that keeps the return
+     variable in front, so that to_func can peel off [t, y, dy] *)
+  Theorem head_reorder_permutation :
+    Permutation (head_args decl ret args) (dedupe args) /\ hd ""%string (head_args decl ret args) = ret.
+  Proof.
+    rewrite head_args_eq. split; [|reflexivity].
+    destruct wf_parts as (_ & _ & Hret & _). destruct (dedupe_spec args) as (HA & HAin).
+    apply NoDup_Permutation; [constructor; [|apply ps_NoDup]|exact HA|].
+    - intros Hin. apply ps_in in Hin. tauto.
+    - intros x. rewrite HAin. split.
+      + intros [<-|Hx]; [exact Hret|]. now apply ps_in in Hx.
+      + intros Hx. destruct (string_dec x ret) as [->|N]; [now left|right]. apply ps_in. tauto.
   Qed.
 
   (* Impl = Spec *)
